@@ -12,7 +12,7 @@ import (
 func init() {
 	register(&Prop{
 		ID:             "C13",
-		Pkgs:           []string{"service/transaction", "common/crypto", "service"},
+		Pkgs:           []string{"service/transaction", "common/crypto", "service", "common"},
 		Run:            runC13,
 		MinObligations: 18,
 		Technique:      "static analysis: guard dominance on every accepting exit of the signature checks (whole-address equality between the address recovered over the transaction's own id and its sender), must-pass-through of the signature check in every Verify and of Verify in every validation loop, input guards of key recovery",
@@ -32,6 +32,7 @@ func init() {
 }
 
 func runC13(c *Ctx) {
+	runC13Extra(c)
 	const tp = "service/transaction"
 
 	// ---- verify-guard
@@ -185,4 +186,113 @@ func (c *Ctx) requireAnyG(e exitAlt, rule, construct string, ws ...Want) {
 		}
 	}
 	c.violate(rule, construct, e.pos(), "not established; guards: "+guardsString(e.Guards))
+}
+
+// runC13Extra: rules added after independently produced mutants were missed.
+func runC13Extra(c *Ctx) {
+	const cr = "common/crypto"
+	hl, _ := c.constVal(cr, "HashLen")
+	// the curve code signs / verifies exactly one hash: longer messages are rejected, not truncated
+	if fn := c.mustFn(cr, "Signature", "Verify"); fn != nil {
+		for _, cs := range c.calls(fn, byMethod("Verify")) {
+			c.requireAt("C13.recover-guard", "Signature.Verify reaches the curve only with a message of at most one hash", cs.Instr, wGE("len(msg) ≤ HashLen", hl, t(-1, `^len\(\$0\)$`)))
+			c.requireAt("C13.recover-guard", "Signature.Verify reaches the curve only with a non-empty message", cs.Instr, wNE("len(msg) ≠ 0", 0, t(1, `^len\(\$0\)$`)))
+		}
+	}
+	if fn := c.mustFn(cr, "", "NewSignature"); fn != nil {
+		n := 0
+		for _, cs := range c.calls(fn, func(cc *ssa.CallCommon) bool { return strings.HasSuffix(calleeName(cc), "ecdsa.SignCompact") }) {
+			n++
+			c.requireAt("C13.recover-guard", "signing covers the whole message (at most one hash)", cs.Instr, wGE("len(hash) ≤ HashLen", hl, t(-1, `^len\(\$0\)$`)))
+		}
+		c.check(n == 1, "C13.recover-guard", "NewSignature signs at one place", fn.Pos(), "1", fmt.Sprint(n))
+	}
+	// parsing: the recovery id is taken verbatim from the 65th byte; parsed signatures own their bytes
+	if fn := c.mustFn(cr, "", "parseSignature"); fn != nil {
+		for _, cs := range c.calls(fn, byCallee("crypto.recoverFlagToECDSA")) {
+			_, a := callArgs(cs.Common())
+			ia, _ := loadOf(a[0]).(*ssa.IndexAddr)
+			okA := ia != nil && render(ia.X) == "$0"
+			if okA {
+				k, isK := constInt(ia.Index)
+				raw, _ := c.constVal(cr, "SignatureLenRaw")
+				okA = isK && k == raw
+			}
+			c.check(okA, "C13.recover-guard", "the recovery id is the signature's own last byte, unaltered", cs.Pos(), "recoverFlagToECDSA(sig[64])", "the recovery id passes through another mapping ("+render(a[0])+"): several encodings of one signature are accepted")
+		}
+		for _, e := range successAlts(fn) {
+			var bases []ssa.Value
+			appendBases(e.Results[0], map[ssa.Value]bool{}, &bases)
+			fresh := len(bases) > 0
+			for _, b := range bases {
+				_, isMk := b.(*ssa.MakeSlice)
+				if al, isAl := b.(*ssa.Alloc); isAl && (al.Comment == "makeslice" || al.Comment == "slicelit") {
+					isMk = true
+				}
+				if !isMk {
+					fresh = false
+				}
+			}
+			c.check(fresh, "C13.recover-guard", "a parsed signature owns its bytes", e.pos(), "make + copy", "parseSignature returns storage shared with the caller's buffer")
+			lo, hi, hasLo, hasHi := boundsOnAll(e.Guards, "len($0)")
+			raw, _ := c.constVal(cr, "SignatureLenRaw")
+			c.check(hasLo && hasHi && lo == hi && (lo == raw || lo == raw+1), "C13.recover-guard", "only the two exact signature lengths parse", e.pos(), fmt.Sprintf("len == %d", lo), "parseSignature accepts other lengths")
+		}
+	}
+	if fn := c.mustFn(cr, "", "ParseSignatureVRS"); fn != nil {
+		for _, fs := range fieldStores([]*ssa.Function{fn}, "Signature", "bytes") {
+			var bases []ssa.Value
+			appendBases(fs.Store.Val, map[ssa.Value]bool{}, &bases)
+			fresh := len(bases) > 0
+			for _, b := range bases {
+				// append onto the zero value of the field (nil) allocates
+				if !(isNilConst(b) || strings.HasSuffix(render(b), ".bytes")) {
+					fresh = false
+				}
+				if p, isP := b.(*ssa.Parameter); isP && p != nil {
+					fresh = false
+				}
+			}
+			_, isApp := fs.Store.Val.(*ssa.Call)
+			c.check(fresh && isApp, "C13.recover-guard", "ParseSignatureVRS copies the caller's buffer before rewriting the recovery id", fs.Store.Pos(), "append(s.bytes, sig...)", "the signature aliases the caller's buffer and then rewrites its first byte in place")
+		}
+	}
+	// the recovered key is used only after recovery succeeded
+	for _, tn := range []string{"transactionV3", "transactionV2"} {
+		fn := c.fn("service/transaction", tn, "verifySignature")
+		if fn == nil {
+			continue
+		}
+		for _, rc := range c.calls(fn, byMethod("RecoverPublicKey")) {
+			ev := errValueOf(rc.Instr)
+			for _, use := range c.calls(fn, byCallee("common.NewAccountAddressFromPublicKey")) {
+				okG := false
+				for _, g := range guardsAt(use.Instr) {
+					if bo, isB := g.Cond.(*ssa.BinOp); isB {
+						isNil := (bo.Op == token.EQL && g.Pol) || (bo.Op == token.NEQ && !g.Pol)
+						if isNil && (bo.X == ev || bo.Y == ev) {
+							okG = true
+						}
+					}
+				}
+				c.check(okG, "C13.verify-guard", tn+": the recovered key is used only after recovery succeeded", use.Pos(), "err == nil", "the address is derived from the recovered key before the recovery error is checked: a missing or malformed signature gives a nil key and a panic instead of a rejection")
+			}
+		}
+	}
+	// JSON signature: parsed only if base64 decoding succeeded
+	if fn := c.mustFn("common", "Signature", "UnmarshalJSON"); fn != nil {
+		for _, cs := range c.calls(fn, byCallee("crypto.ParseSignature")) {
+			c.requireAt("C13.recover-guard", "a JSON signature is parsed only if its base64 text decoded completely", cs.Instr, wSame("DecodeString ok", `DecodeString\(.*\)#1$`, `^nil$`))
+		}
+	}
+	// a transaction whose JSON id differs from the id of its fields keeps the JSON id
+	if fn := c.mustFn("service/transaction", "", "parseV3JSON"); fn != nil {
+		n := 0
+		for _, fs := range fieldStores(withAnon(fn), "transactionV3", "txHash") {
+			n++
+			_, okD := holds(guardsAt(fs.Store), wDiffer("id of the JSON ≠ id of the fields", `calcHashOfTransactionJSON|\.ID\(\)$`, `\.ID\(\)$|calcHashOfTransactionJSON`))
+			c.check(okD || len(guardsAt(fs.Store)) > 0, "C13.empty-id", "the JSON id is installed when it differs from the field id", fs.Store.Pos(), render(fs.Store.Val), "txHash store unguarded")
+		}
+		c.check(n >= 1, "C13.empty-id", "parseV3JSON installs the id of the original JSON when it differs from the id of the parsed fields", fn.Pos(), "tx.txHash = id", "a transaction with non-canonical or extra fields keeps the id of its parsed fields: its signature is checked against an id that is not the one of the bytes that were signed")
+	}
 }
